@@ -84,13 +84,17 @@ package tracer
 //@        old(bufContent[d.endStream]) + bytes(data[:result_0]) != "" ==>
 //@        evN[d.builder] == old(evN[d.builder]) + 2 && evKind[d.builder][old(evN[d.builder]) + 1] == 3
 
+// trS[d]: all bytes handed to tracer d so far (ghost; appended to by trace)
+//@ ghost trS: *dataTracer -> string
+
 // trace: keeps the representation invariant for any chunk of any length, never touches the
 // caller's bytes (the prefix buffer is the tracer's own), only adds events.
 //@ func (*dataTracer).trace
 //@   requires wfTracer(d) && !held[d.mu]
 //@   requires len(data) > 0 ==> slicebase(data) != slicebase(d.prefix) //# the tracer's private prefix buffer is not the caller's buffer
-//@   modifies held, dataTracer.prefix, dataTracer.env, dataTracer.expecting, dataTracer.actual, dataTracer.endStream, []byte, Envelope.*, bufContent,
+//@   modifies trS, held, dataTracer.prefix, dataTracer.env, dataTracer.expecting, dataTracer.actual, dataTracer.endStream, []byte, Envelope.*, bufContent,
 //@            evN, evKind, evLen, evEnv, builder.*, RequestBodyData.*, ResponseBodyData.*, ResponseBodyEndStream.*, eventOffset.*, []Event, http.Request.*
+//@   assume_ensures trS == old(trS)[d := old(trS[d]) + bytes(data)] //# ghost bookkeeping: the byte stream seen by this tracer
 //@   ensures wfTracer(d) && !held[d.mu]
 //@   ensures @events evN[d.builder] >= old(evN[d.builder])
 //@   ensures @untouched unchangedArray(data)
@@ -143,9 +147,10 @@ package tracer
 //@ func (*tracingReader).Read
 //@   requires t != nil && t.reader != nil && t.builder != nil && t.whenDone != nil && wfTracer(t.dataTracer) && !held[t.dataTracer.mu] && t.dataTracer.builder == t.builder
 //@   requires slicebase(data) != slicebase(t.dataTracer.prefix) //# the tracer's private prefix buffer is not the caller's buffer
-//@   modifies []byte, lastReadN, lastReadErr, lastReadArr, atomicBoolV, held, dataTracer.prefix, dataTracer.env, dataTracer.expecting, dataTracer.actual, dataTracer.endStream,
+//@   modifies trS, []byte, lastReadN, lastReadErr, lastReadArr, atomicBoolV, held, dataTracer.prefix, dataTracer.env, dataTracer.expecting, dataTracer.actual, dataTracer.endStream,
 //@            Envelope.*, bufContent, evN, evKind, evLen, evEnv, builder.*, RequestBodyData.*, ResponseBodyData.*, ResponseBodyEndStream.*, RequestBodyEnd.*, ResponseBodyEnd.*, eventOffset.*, []Event, http.Request.*
 //@   ensures @passthrough n == lastReadN[t.reader] && err == lastReadErr[t.reader] && arrayof(data) == lastReadArr[t.reader]
+//@   ensures @traced trS[t.dataTracer] == old(trS[t.dataTracer]) + bytes(data[:n])
 //@   ensures wfTracer(t.dataTracer) && !held[t.dataTracer.mu]
 //@   ensures @closed-on-error err != nil ==> atomicBoolV[t.closed]
 
@@ -191,10 +196,11 @@ package tracer
 //@ func (*tracingResponseWriter).Write
 //@   requires wfWriter(t) && !held[t.dataTracer.mu]
 //@   requires slicebase(data) != slicebase(t.dataTracer.prefix) //# the tracer's private prefix buffer is not the caller's buffer
-//@   modifies tracingResponseWriter.*, dataTracer.*, http.Response.*, map[string][]string, []string, []byte, bufContent, Envelope.*, held, lastWriteN, lastWriteErr,
+//@   modifies trS, tracingResponseWriter.*, dataTracer.*, http.Response.*, map[string][]string, []string, []byte, bufContent, Envelope.*, held, lastWriteN, lastWriteErr,
 //@            evN, evKind, evLen, evEnv, builder.*, eventOffset.*, []Event, http.Request.*, ResponseStart.*, RequestBodyData.*, ResponseBodyData.*, ResponseBodyEndStream.*, ResponseBodyEnd.*
 //@   ensures @passthrough result_0 == lastWriteN[t.respWriter] && result_1 == lastWriteErr[t.respWriter]
 //@   ensures @untouched unchangedArray(data)
+//@   ensures @traced trS[t.dataTracer] == old(trS[t.dataTracer]) + bytes(data[:result_0])
 //@   ensures wfWriter(t) && t.started && !held[t.dataTracer.mu]
 //@   ensures @finished-on-error result_1 != nil ==> t.finished
 
